@@ -47,3 +47,46 @@ def project_payload(proj, runs):
     return {"project": {k: proj[k] for k in ("name", "files", "sources", "opts", "desc", "shape") if k in proj},
             "runs": [{"label": r["label"], "args": r["args"], "rc": r["rc"],
                       "findings": [f["key"] for f in r["findings"]], "stray": r["stray"]} for r in runs]}
+
+
+SHADOW_CLASS = "global-suppression-reported-unmatched-by-parallel-run-when-a-file-local-one-suppresses-the-finding-in-the-worker"
+
+
+def _is_local(s):
+    return bool(s["file"]) and "*" not in s["file"] and "?" not in s["file"]
+
+
+def shadowed_global(proj, sid, sfile):
+    """Is the unmatchedSuppression report for the command-line entry (sid, sfile) explained by this known root cause?
+    The per-file analyzers of the thread and process executors consult only file-local entries (useGlobalSuppressions is
+    false); when a local entry (inline or id:file) suppresses a finding there, the finding never reaches the executor, whose
+    global entries are therefore never consulted for it: a global entry that matches this finding in a single-job run (where
+    all entries are consulted) stays unmatched in the parallel run."""
+    want_file = "" if sfile in ("nofile", "") else sfile
+    cands = [s for s in proj["supprs"] if not s["inline"] and not _is_local(s) and s["id"] == sid and s["file"] == want_file]
+    if not cands:
+        return False
+    import fnmatch
+    for f_file, f_line, f_id, _sev in proj["located"]:
+        if sid not in (f_id, "*"):
+            continue
+        if want_file and not fnmatch.fnmatch(f_file, want_file):
+            continue
+        for t in proj["supprs"]:
+            if _is_local(t) and t["file"] == f_file and t["id"] in (f_id, "*") and (t["line"] in (-1, f_line)):
+                return True
+    return False
+
+
+def explain_parallel_unmatched(proj, only_ref, only_alt):
+    """class key if a single-job / parallel difference consists only of extra unmatchedSuppression reports of the parallel
+    run that the shadowing root cause explains, else None"""
+    if only_ref or not only_alt:
+        return None
+    for k in only_alt:
+        p = k.split("|")
+        if len(p) < 7 or p[5] != "unmatchedSuppression" or not p[6].startswith("Unmatched suppression: "):
+            return None
+        if not shadowed_global(proj, p[6][len("Unmatched suppression: "):], p[0]):
+            return None
+    return SHADOW_CLASS
